@@ -64,7 +64,7 @@ def all_actions(g):
 def run(ctx):
     ctx.check_property_file()
     thorough = ctx.tier == "thorough"
-    cands_g = [all_actions(cfggen.family(i)) for i in (3, 4, 5)]
+    cands_g = [all_actions(cfggen.family(i)) for i in (3, 4, 5, 13)]
     cands_g += [all_actions(cfggen.gen_cfg(ctx.rng, max_nt=ctx.rng.choice([1, 2, 3, 4]))) for _ in range(90 if not thorough else 900)]
     cands_g = [g for g in cands_g if not g.has_error()]
     recs, stats, ws = lrcommon.prepare_parsers(ctx, cands_g, flags=["-a"])
